@@ -269,7 +269,10 @@ class Fn:
             return V("q", "(%s %s %s)%%Qc" % (paren(as_q(a)), op, paren(as_q(b))), tt)
         if tt in INT_RANGE:
             if op == "/":
-                raise TranslateError("integer division (line %s)" % line_of(n))
+                # unsigned: both operands non-negative, C truncation = floor; signed: truncation towards zero
+                if tt == "unsigned int":
+                    return V("z", "wrap32 (%s / %s)" % (paren(as_z(a)), paren(as_z(b))), tt)
+                return V("z", "Z.quot %s %s" % (paren(as_z(a)), paren(as_z(b))), tt)
             s = "%s %s %s" % (paren(as_z(a)), op, paren(as_z(b)))
             if tt == "unsigned int":
                 return V("z", "wrap32 (%s)" % s, tt)
@@ -907,16 +910,21 @@ def position_list(n, objname, fnmap, what):
 
 def tr_append():
     docs = ast_of("src/IO/HDF5File.cpp", "vfps::HDF5File::appendTracks")
-    _, body = find_method(docs, "appendTracks")
-    loops = [m for m in walk(body) if m.get("kind") == "CXXForRangeStmt"]
-    if len(loops) != 1:
-        raise TranslateError("appendTracks: expected one range-based for loop")
-    pb = [m for m in walk(loops[0]) if m.get("kind") == "CXXMemberCallExpr" and kids(m)[0].get("name") == "push_back"]
+    d, body = find_method(docs, "appendTracks")
+    prm = [c["name"] for c in d.get("inner", []) if c.get("kind") == "ParmVarDecl"]
+    loops = [m for m in walk(body) if m.get("kind") in ("CXXForRangeStmt", "ForStmt", "WhileStmt")]
+    if len(loops) != 1 or len(prm) != 1:
+        raise TranslateError("appendTracks: expected one parameter and one loop over it")
+    pb = [m for m in walk(loops[0]) if m.get("kind") == "CXXMemberCallExpr" and kids(m)[0].get("name") in ("push_back", "emplace_back")]
     if len(pb) != 1:
         raise TranslateError("appendTracks: expected one push_back in the loop")
-    loopvar = [c["name"] for c in walk(loops[0]) if c.get("kind") == "VarDecl" and not c["name"].startswith("__")]
-    if len(loopvar) != 1:
-        raise TranslateError("appendTracks: loop variable not found")
+    # the particle of the current iteration: a local of type Position declared inside the loop from the parameter
+    cand = {}
+    for c in walk(loops[0]):
+        if c.get("kind") == "VarDecl" and not c["name"].startswith("__") and "Position" in ty(c) and "vector" not in ty(c) and "iterator" not in ty(c):
+            refs = [refname(m) for m in walk(c) if m.get("kind") == "DeclRefExpr"]
+            if prm[0] in refs or any((r or "").startswith("__") for r in refs):
+                cand[c["name"]] = True
     ents = []
     for f, arg in position_list(pb[0], "_ps", {"q": "AxQ", "p": "AxP"}, "appendTracks"):
         a = arg
@@ -929,8 +937,8 @@ def tr_append():
             a = kids(a)[0]
         if conv != "unsigned int":
             raise TranslateError("appendTracks: the coordinate is not converted from float to unsigned int (but %s)" % conv)
-        if a.get("kind") != "MemberExpr" or a.get("name") not in ("x", "y") or refname(kids(a)[0]) != loopvar[0]:
-            raise TranslateError("appendTracks: the argument is not a plain coordinate of the loop variable")
+        if a.get("kind") != "MemberExpr" or a.get("name") not in ("x", "y") or refname(kids(a)[0]) not in cand:
+            raise TranslateError("appendTracks: the argument is not a plain coordinate of the particle of this iteration")
         ents.append((f, "CX" if a["name"] == "x" else "CY"))
     return ("(** HDF5File::appendTracks: physcords.push_back({_ps->F(pos.c), _ps->G(pos.d)}) with the float -> unsigned conversion\n"
             "    of the argument ([f2u (Qctrunc c)], see [append_entry]) *)\n"
@@ -1029,24 +1037,52 @@ def tr_main():
 
 # ------------------------------------------------------------------------------------------- DynamicRFKickMap
 
+def _names(n):
+    return [m.get("name") for m in walk(n) if m.get("kind") == "MemberExpr"]
+
+
+def _is_front(n):
+    """the expression is `_next_modulation.front()` (possibly moved / copied / bound to a reference)"""
+    return _names(n) == ["front", "_next_modulation"] and not any(m.get("kind") in ("IntegerLiteral", "ArraySubscriptExpr") for m in walk(n))
+
+
+def _src_text(n, src_rel):
+    r = n.get("range", {})
+    b, e = r.get("begin", {}), r.get("end", {})
+    if "offset" not in b or "offset" not in e:
+        return ""
+    with open(os.path.join(REPO, src_rel), "rb") as f:
+        data = f.read()
+    return data[b["offset"]:e["offset"] + e.get("tokLen", 0)].decode("utf-8", "replace")
+
+
 def tr_dyn():
-    docs = ast_of("src/SM/DynamicRFKickMap.cpp", "vfps::DynamicRFKickMap::apply")
+    SRC = "src/SM/DynamicRFKickMap.cpp"
+    docs = ast_of(SRC, "vfps::DynamicRFKickMap::apply")
     _, body = find_method(docs, "apply")
     acts = []
+    alias = {}          # local name -> number of pops seen when it was bound to front()
+    pops = 0
     for s in kids(body):
         st = s
         while st.get("kind") in WRAPPERS:
             st = kids(st)[0]
+        if st.get("kind") == "DeclStmt":
+            # a local copy of / reference to the front entry
+            for vd in kids(st):
+                if vd.get("kind") != "VarDecl" or not kids(vd) or not _is_front(kids(vd)[-1]):
+                    raise TranslateError("DynamicRFKickMap::apply: local declaration that is not a copy of _next_modulation.front()")
+                alias[vd["name"]] = pops
+            continue
         if st.get("kind") == "IfStmt" and len(kids(st)) == 2:
             # if (!_next_modulation.empty()) _calcKick();
             c, b = kids(st)
             while c.get("kind") in WRAPPERS + ("ImplicitCastExpr",):
                 c = kids(c)[0]
             inner = kids(b) if b.get("kind") == "CompoundStmt" else [b]
-            ok = c.get("kind") == "UnaryOperator" and c.get("opcode") == "!" and \
-                [m.get("name") for m in walk(c) if m.get("kind") == "MemberExpr"] == ["empty", "_next_modulation"] and \
+            ok = c.get("kind") == "UnaryOperator" and c.get("opcode") == "!" and _names(c) == ["empty", "_next_modulation"] and \
                 len(inner) == 1 and inner[0].get("kind") == "CXXMemberCallExpr" and kids(inner[0])[0].get("name") == "_calcKick" and \
-                len([m for m in walk(kids(inner[0])[0]) if m.get("kind") == "MemberExpr"]) == 1
+                len(_names(kids(inner[0])[0])) == 1
             if not ok:
                 raise TranslateError("DynamicRFKickMap::apply: conditional statement that is not `if (!_next_modulation.empty()) _calcKick();`")
             acts.append("DCalcKickIfMore")
@@ -1055,7 +1091,7 @@ def tr_dyn():
             raise TranslateError("DynamicRFKickMap::apply: statement of kind %s" % st.get("kind"))
         me = kids(st)[0]
         nm = me.get("name")
-        objs = [m.get("name") for m in walk(me) if m.get("kind") == "MemberExpr"][1:]
+        objs = _names(me)[1:]
         if nm == "_calcKick" and not objs and len(kids(st)) == 1:
             acts.append("DCalcKick")
         elif nm == "apply" and not objs:
@@ -1063,37 +1099,72 @@ def tr_dyn():
             if not base or "KickMap" not in base[0] or "RFKickMap" in base[0]:
                 raise TranslateError("DynamicRFKickMap::apply calls apply() of %s, not KickMap::apply" % (base or ["itself"]))
             acts.append("DKickApply")
-        elif nm == "emplace_back" and objs == ["_past_modulation"]:
-            inner = [(m.get("name")) for m in walk(kids(st)[1]) if m.get("kind") == "MemberExpr"]
-            if inner != ["front", "_next_modulation"]:
-                raise TranslateError("DynamicRFKickMap::apply: _past_modulation.emplace_back does not take _next_modulation.front()")
-            acts.append("DPushPast")
-        elif nm == "push_back" and objs == ["_past_modulation"]:
-            inner = [(m.get("name")) for m in walk(kids(st)[1]) if m.get("kind") == "MemberExpr"]
-            if inner != ["front", "_next_modulation"]:
-                raise TranslateError("DynamicRFKickMap::apply: _past_modulation.push_back does not take _next_modulation.front()")
+        elif nm in ("emplace_back", "push_back") and objs == ["_past_modulation"] and len(kids(st)) == 2:
+            arg = kids(st)[1]
+            refs = [refname(m) for m in walk(arg) if m.get("kind") == "DeclRefExpr" and refname(m) in alias]
+            if _is_front(arg):
+                pass
+            elif len(refs) == 1 and not _names(arg):
+                if alias[refs[0]] != pops:
+                    raise TranslateError("DynamicRFKickMap::apply: the copy of the front entry is stored after a pop()")
+            else:
+                raise TranslateError("DynamicRFKickMap::apply: _past_modulation.%s does not take the front entry of _next_modulation" % nm)
             acts.append("DPushPast")
         elif nm == "pop" and objs == ["_next_modulation"]:
             acts.append("DPop")
+            pops += 1
         else:
             raise TranslateError("DynamicRFKickMap::apply: call of %s on %s not understood" % (nm, objs))
-    docs = ast_of("src/SM/DynamicRFKickMap.cpp", "vfps::DynamicRFKickMap::_calcKick")
+    docs = ast_of(SRC, "vfps::DynamicRFKickMap::_calcKick")
     _, body = find_method(docs, "_calcKick")
-    sts = kids(body)
-    if len(sts) != 1:
-        raise TranslateError("DynamicRFKickMap::_calcKick is not a single statement")
-    call = sts[0]
-    while call.get("kind") in WRAPPERS:
-        call = kids(call)[0]
-    if call.get("kind") != "CXXMemberCallExpr" or kids(call)[0].get("name") != "_calcKick" or len(kids(call)) != 3:
+    env = {}            # local -> "front" | component number
+
+    def value(n):
+        while n.get("kind") in WRAPPERS + ("ImplicitCastExpr", "CXXStaticCastExpr"):
+            n = kids(n)[0]
+        if n.get("kind") == "DeclRefExpr" and refname(n) in env:
+            return env[refname(n)]
+        if _is_front(n):
+            return "front"
+        if n.get("kind") == "CXXOperatorCallExpr" and len(kids(n)) == 3 and refname(strip_casts(kids(n)[0])) == "operator[]":
+            lit = strip_casts(kids(n)[2])
+            if value(kids(n)[1]) == "front" and lit.get("kind") == "IntegerLiteral":
+                return int(lit["value"])
+        if n.get("kind") == "CallExpr" and len(kids(n)) == 2 and refname(strip_casts(kids(n)[0])) == "get":
+            m = re.search(r"get\s*<\s*(\d+)\s*>", _src_text(strip_casts(kids(n)[0]), SRC))
+            if m and value(kids(n)[1]) == "front":
+                return int(m.group(1))
+        if n.get("kind") == "CXXMemberCallExpr" and kids(n)[0].get("name") == "at" and len(kids(n)) == 2:
+            lit = strip_casts(kids(n)[1])
+            if value(kids(kids(n)[0])[0]) == "front" and lit.get("kind") == "IntegerLiteral":
+                return int(lit["value"])
+        raise TranslateError("DynamicRFKickMap::_calcKick: expression that is not a component of _next_modulation.front() (line %s)" % line_of(n))
+
+    def strip_casts(n):
+        while n.get("kind") in WRAPPERS + ("ImplicitCastExpr", "CXXStaticCastExpr"):
+            n = kids(n)[0]
+        return n
+
+    call = None
+    for s in kids(body):
+        st = s
+        while st.get("kind") in WRAPPERS:
+            st = kids(st)[0]
+        if st.get("kind") == "DeclStmt":
+            for vd in kids(st):
+                if vd.get("kind") != "VarDecl" or not kids(vd):
+                    raise TranslateError("DynamicRFKickMap::_calcKick: uninitialised local")
+                env[vd["name"]] = value(kids(vd)[-1])
+        elif st.get("kind") == "CXXMemberCallExpr" and call is None:
+            call = st
+        else:
+            raise TranslateError("DynamicRFKickMap::_calcKick: statement of kind %s" % st.get("kind"))
+    if call is None or kids(call)[0].get("name") != "_calcKick" or len(kids(call)) != 3 or \
+            not any("RFKickMap" in ty(m) for m in walk(kids(call)[0]) if m.get("castKind") in ("UncheckedDerivedToBase", "DerivedToBase")):
         raise TranslateError("DynamicRFKickMap::_calcKick does not call RFKickMap::_calcKick(phase, ampl)")
-    comps = []
-    for a in kids(call)[1:]:
-        names = [m.get("name") for m in walk(a) if m.get("kind") == "MemberExpr"]
-        lits = [int(m["value"]) for m in walk(a) if m.get("kind") == "IntegerLiteral"]
-        if names != ["front", "_next_modulation"] or len(lits) != 1:
-            raise TranslateError("DynamicRFKickMap::_calcKick: an argument is not _next_modulation.front()[k]")
-        comps.append(lits[0])
+    comps = [value(a) for a in kids(call)[1:]]
+    if any(not isinstance(c, int) for c in comps):
+        raise TranslateError("DynamicRFKickMap::_calcKick hands over a whole queue entry")
     return ("(** DynamicRFKickMap::apply: its statements in program order *)\n"
             "Definition gen_dyn_apply : list dynstmt := [%s].\n"
             "(** DynamicRFKickMap::_calcKick: RFKickMap::_calcKick(front()[%d], front()[%d]) - components handed over as (phase, amplitude) *)\n"
